@@ -24,6 +24,30 @@ type vsaved struct {
 }
 
 // decode a (possibly damaged) stream into the model's block operations with the real gob decoder
+// offsets at which a gob message of the outer stream ends (bytes.Reader is an io.ByteReader, so the
+// decoder consumes exactly one message per Decode)
+func vblockBoundaries(data []byte) []int {
+	rd := bytes.NewReader(data)
+	dec := gob.NewDecoder(rd)
+	var out []int
+	for {
+		block := &DataBlock[any]{}
+		var err error
+		func() {
+			defer func() {
+				if e := recover(); e != nil {
+					err = fmt.Errorf("panic: %v", e)
+				}
+			}()
+			err = dec.Decode(block)
+		}()
+		if err != nil {
+			return out
+		}
+		out = append(out, len(data)-rd.Len())
+	}
+}
+
 func vfeedBlocks(tr *vtrace, data []byte) {
 	dec := gob.NewDecoder(bytes.NewReader(data))
 	block := &DataBlock[any]{}
@@ -225,6 +249,14 @@ func TestVerifPersist(t *testing.T) {
 			}
 			vars = append(vars, variant{"truncated", clean[:off], version, size, 0, true})
 		}
+		// every block boundary of the clean stream (a crash between two block writes), and one byte around it
+		for _, b := range vblockBoundaries(clean) {
+			for _, off := range []int{b - 1, b, b + 1} {
+				if off >= 0 && off < len(clean) {
+					vars = append(vars, variant{"truncated", clean[:off], version, size, 0, true})
+				}
+			}
+		}
 		ndam := vscale(250, 3000)
 		for i := 0; i < ndam; i++ {
 			d := append([]byte(nil), clean...)
@@ -316,6 +348,11 @@ func TestVerifPersist(t *testing.T) {
 				}
 				var tot int64
 				dst.RangeEntry(func(e *Entry[int, int]) { tot += e.weight.Load() })
+				dst.RangeEntry(func(e *Entry[int, int]) {
+					if x := e.expire.Load(); x != 0 && start+x < wall {
+						tr.viol(fmt.Sprintf("C11: key %d was restored although its deadline (wall clock %d) had passed at load time %d", e.key, start+x, wall))
+					}
+				})
 				if tot > vr.size || int64(dst.policy.weightedSize) != tot {
 					tr.viol(fmt.Sprintf("C11: loaded cost %d (policy %d) into MaxSize %d", tot, dst.policy.weightedSize, vr.size))
 				}
